@@ -31,8 +31,8 @@ CLAIMED = {
             "the resolver cannot panic on any value kind (typestate); both forms of a step guard map lookups by key assignability and filter struct fields through CanInterface; the reflect Call is preceded by Kind==Func, arity, NumOut, parameter-type and validity tests with error edges and the error result is examined; Index only for 0<=i<Len(); invalid intermediates end with (empty value, nil) while scalars/non-functions are errors; no reflect conversions; Private before Public, Globals before context",
             "that a path denotes exactly the value a reference resolver computes (values are never computed)", "DESIGN.md §3 C08"),
     "C06": ("constant and provenance rules over go/ssa, call-graph reachability, constant-table check",
-            "the lexer's end-of-input marker lies outside the rune domain; emit rewrites token values only under a type test excluding TokenHTML and Val is the source slice input[start:pos]; one text node per HTML token holding that token, writing its Val changed only by flag-guarded trims; the comment tag's parser reaches no parsing function and its node does nothing; the templatetag table equals the specification and the node writes the looked-up value; tokenize() runs only on the !inVerbatim edge",
-            "lexer span arithmetic over arbitrary bytes, the concatenation homomorphism, acceptance of every verbatim placement (empty/adjacent verbatim blocks are known to fail, observable only by running the lexer)", "DESIGN.md §3 C06"),
+            "the lexer's end-of-input marker lies outside the rune domain; emit rewrites token values only under a type test excluding TokenHTML and Val is the source slice input[start:pos]; one text node per HTML token holding that token, writing its Val changed only by flag-guarded trims; the comment tag's parser reaches no parsing function and its node does nothing; the templatetag table equals the specification and the node writes the looked-up value; tokenize() runs only on the !inVerbatim edge; after every switch into or out of verbatim mode the scanning loop restarts at its head before another rune is consumed",
+            "lexer span arithmetic over arbitrary bytes, the concatenation homomorphism, the lexer's acceptance of every other verbatim placement as observed output", "DESIGN.md §3 C06"),
     "C09": ("effect analysis restricted to cycle/ifchanged nodes, path-guard polarity rules, loop-shape rules and linear-form (a*idx+b*count+c) evaluation of stored values over go/ssa",
             "cycle/ifchanged keep state only in the execution context; ifequal/ifnotequal compare (first, second) and run then/else on opposite edges; if runs wrappers[i] on conditions[i] true and the else body only after the last false condition; firstof prints only a true argument and stops; for runs body/empty in their own callbacks with reversed/sorted in place; forloop fields equal their reference linear forms and conditions; IterateOrder passes an item-stepping induction variable and the item count; ifchanged evaluates all watched expressions without early exit and then replaces the remembered list",
             "element order under reversed/sorted, nesting arithmetic, the rendered text", "DESIGN.md §3 C09"),
